@@ -117,6 +117,19 @@ CASES = [
     ('full_like_f', [(np.array([3.0, 4.0]), 2)]),
     ('atleast', [(2.5,), (np.array([1.0, 2.0]),)]),
     ('isinstance_checks', [(2.5, np.array([1.0]))]),
+    ('any_all_of_list', [(L([0, 0, 0]),), (L([0, 2, 0]),), (L([1, 2, 3]),)]),
+    ('any_all_of_built_list', [(Sym(3), Sym(-1)), (Sym(3), Sym(1)), (Sym(1), Sym(0))]),
+    ('builtins_on_list', [(L([3, -1, 2]),), (L([-2]),)]),
+    ('builtins_on_built_list', [(Sym(0),), (Sym(3),)]),
+    ('np_on_list', [(L([3.0, -1.0, 2.0]),)]),
+    ('np_sum_list', [(L([3.0, -1.0, 2.0]),)]),
+    ('np_max_list', [(L([3.0, -1.0, 2.0]),)]),
+    ('np_mean_list', [(L([3.0, -1.0, 2.0]),)]),
+    ('np_argmin_list', [(L([3.0, -1.0, 2.0]),)]),
+    ('list_truth', [(L([]),), (L([0]),)]),
+    ('array_size_truth', [(np.array([1.0]),), (np.array([]),)]),
+    ('minimum_clip', [(np.array([0.5, 2.0, 3.5]), 2.0)]),
+    ('minimum_pair', [(np.array([0.5, 2.0]), np.array([1.0, 1.0]))]),
 ]
 
 
@@ -194,6 +207,11 @@ def equal(v, want):
     if isinstance(v, z3.ArithRef):
         if isinstance(want, float) and v.is_int() and want != int(want):
             return z3.BoolVal(False)
+        if isinstance(want, float) and not v.is_int():
+            # CPython rounds, the engine computes in exact rationals: equal up to a relative 1e-12
+            w = num(want)
+            eps = z3.RealVal(repr(1e-12 * (1 + abs(want))))
+            return z3.And(v - w <= eps, w - v <= eps)
         return v == num(want if not (v.is_int() and isinstance(want, float)) else int(want))
     return z3.BoolVal(False)
 
